@@ -404,7 +404,10 @@ def run(chk: Check) -> None:
         writes = [c for s_ in body for c in ast.walk(s_) if isinstance(c, ast.Call) and last_name(c) in ('set_result', 'set_exception', 'cancel')]
         chk.ob('DISP-future-state', rf, not writes, 'a pending future is restored pending', kind='pending-restored')
     sf = prog.func('persistence.SavableFuture.save_instance_state')
-    ok = any(isinstance(n, ast.If) and 'self.done()' in norm(n.test) and 'self.exception() is not None' in norm(n.test)
-             and any(isinstance(s, ast.Assign) and isinstance(s.targets[0], ast.Subscript) and norm(s.value) == 'self.exception()' for s in n.body) for n in ast.walk(sf.node))
+    # the store of the exception, with what is known there: the future is done, and it has an exception (however the tests are nested / named)
+    fsf = chk.ctx.facts.analyse(sf)
+    st_ = [m for m in fsf.cfg.nodes if m.kind == 'stmt' and isinstance(m.ast, ast.Assign) and isinstance(m.ast.targets[0], ast.Subscript)
+           and prog.fold(sf.module, m.ast.targets[0].slice, sf.owner_class) == 'exception' and fsf.canon.key(m.ast.value) == 'self.exception()']
+    ok = len(st_) == 1 and ('T', 'self.done()') in fsf.at(st_[0]) and ('notnone', 'self.exception()') in fsf.at(st_[0])
     chk.ob('DISP-future-state', sf, ok, 'the exception of a failed future is saved', kind='exception-saved')
     chk.assumptions.append('equality of restored plain values depends on copy.deepcopy / the serialisation medium: not decided')
